@@ -65,10 +65,25 @@ type State struct {
 	held   string // lock ghost: 0 none, 1 read, 2 write (term)
 	epoch  int    // id of the last whole-heap havoc this state has seen
 	trN    string // ghost: number of traced calls made so far by this activation
+	// ghost per map range: the set of keys already produced (term of sort (Array K Bool)) and the
+	// presence array of the map when the range started
+	vis map[*ssa.Range]visInfo
+}
+
+type visInfo struct {
+	set  string // current visited set
+	has0 string // (select H m) at range start
+	sort string // (Array K Bool)
 }
 
 func (s *State) clone() *State {
 	n := &State{heap: make(map[string]string, len(s.heap)), locals: make(map[*ssa.Alloc]string, len(s.locals)), alloc: s.alloc, held: s.held, epoch: s.epoch, trN: s.trN}
+	if len(s.vis) > 0 {
+		n.vis = make(map[*ssa.Range]visInfo, len(s.vis))
+		for k, v := range s.vis {
+			n.vis[k] = v
+		}
+	}
 	for k, v := range s.heap {
 		n.heap[k] = v
 	}
